@@ -59,6 +59,8 @@ func C08(r *core.Run) {
 	rules.VerbatimCopy(r, codecRel, "indexNeedEscapeInString", "google.golang.org/protobuf/internal/encoding/json", "indexNeedEscapeInString")
 	// dispatch order of encodeValue (X4)
 	rules.DispatchOrder(r, codecRel, "encoder.encodeValue", "lib/j5reflect")
+	// an output is the caller's: it is not memory that goes back into a pool
+	rules.PoolAlias(r, []string{codecRel})
 	// totality of the encoder path
 	sc := rules.NewScope(r, []rules.Entry{rules.E(codecRel, "Codec.ProtoToJSON"), rules.E(codecRel, "Codec.EncodeAny")})
 	bce := rules.RunBCE(r, sc.Packages())
